@@ -203,16 +203,45 @@ func isAlphaNumeric(r byte) bool {
 var (
 	leadingOrTrailing_ = regexp.MustCompile("^_+|_+$")
 	consecutive_       = regexp.MustCompile("__+")
-	wordBoundary1      = regexp.MustCompile("([a-zA-Z])([A-Z][a-z])") // <letter>_<upper><lower>
-	wordBoundary2      = regexp.MustCompile("([a-zA-Z])([0-9])")      // <letter>_<digit>
-	wordBoundary3      = regexp.MustCompile("([0-9])([a-zA-Z])")      // <digit>_<letter>
 )
 
+// toUpperUnderscore converts an identifier to UPPER_UNDERSCORE form, the way
+// official Soy does (BaseUtils.convertToUpperUnderscore).
 func toUpperUnderscore(ident string) string {
 	ident = leadingOrTrailing_.ReplaceAllString(ident, "")
-	ident = consecutive_.ReplaceAllString(ident, "${1}_${2}")
-	ident = wordBoundary1.ReplaceAllString(ident, "${1}_${2}")
-	ident = wordBoundary2.ReplaceAllString(ident, "${1}_${2}")
-	ident = wordBoundary3.ReplaceAllString(ident, "${1}_${2}")
+	ident = insertWordBoundaries(ident)
+	ident = consecutive_.ReplaceAllString(ident, "_")
 	return strings.ToUpper(ident)
 }
+
+// insertWordBoundaries puts an underscore at every word boundary of the
+// identifier.  Official Soy finds the boundaries with zero-width look-arounds,
+// so two boundaries may be one character apart (toDoList -> to_Do_List).
+func insertWordBoundaries(ident string) string {
+	var buf bytes.Buffer
+	for i := 0; i < len(ident); i++ {
+		if i > 0 && isWordBoundary(ident, i) {
+			buf.WriteByte('_')
+		}
+		buf.WriteByte(ident[i])
+	}
+	return buf.String()
+}
+
+// isWordBoundary reports whether a word starts at ident[i]: a letter is
+// followed by a capitalised word (<letter>|<upper><lower>) or by a digit
+// (<letter>|<digit>), or a digit is followed by a letter (<digit>|<letter>).
+func isWordBoundary(ident string, i int) bool {
+	var prev, cur = ident[i-1], ident[i]
+	switch {
+	case isAsciiLetter(prev):
+		return isDigit(cur) ||
+			'A' <= cur && cur <= 'Z' && i+1 < len(ident) && 'a' <= ident[i+1] && ident[i+1] <= 'z'
+	case isDigit(prev):
+		return isAsciiLetter(cur)
+	}
+	return false
+}
+
+func isAsciiLetter(c byte) bool { return 'a' <= c && c <= 'z' || 'A' <= c && c <= 'Z' }
+func isDigit(c byte) bool       { return '0' <= c && c <= '9' }
